@@ -588,7 +588,10 @@ func TestCorr(t *testing.T) {
 		"governance fee setters, real SLC enqueue (ranking) and the real consensus EndBlock under recover at heights incl. multiples of 10 and 50; " +
 		"half of the histories draw multipliers / fee strings / estimates from a hostile pool (nil, 0, negative, 1e-18, 1e6, 1e6+1ulp, 1e30, ±LegacyDec range limit; " +
 		"'abc', '', negative, huge strings; estimates 0, 1, 2^63, 2^64-1, 2^64-616); then every module's real Begin/EndBlock at heights next, 300, 303, 350, 600, 606, 650, 9999, 10000, 10010, 10050. " +
-		"Plus mulCeilUint64 on boundary operands. non-trivial = a history in which at least one election happened (CHist) / a block run with queued messages (CBlocks)")
+		"Plus mulCeilUint64 on boundary operands. SECOND ROUND: N attestation histories (compass deployed; logic calls, user-contract uploads, validator-balance and reference-block requests; " +
+		"evidence through MsgAddEvidence from a pool of absent / empty-type / unregistered / garbage proofs, transaction proofs with successful, failed and missing receipts, error proofs, balance lists of right and wrong length, proofs of the wrong kind; " +
+		"the same unusable proofs written through the queue object; public access / error data by any validator; gas estimates so that some messages get fees and some never do; end-blocks at growing heights and a jump past the pruning age to a multiple of 50), " +
+		"N/3 histories of the real skyway.EndBlocker on two chains with applied / refused / panicking claims, isNewSnapshotWorthy on equal-order snapshots incl. zero totals and the 1% boundary. non-trivial = a history in which at least one election happened (CHist) / a block run with queued messages (CBlocks)")
 
 	// ---- corpus first: F6 and friends ----
 	corpus, _ := filepath.Glob("/verif/harness/corpus/C09/*.json")
@@ -678,7 +681,7 @@ func TestCorr(t *testing.T) {
 	}
 
 	// ---- second round: attestation / pruning histories, the skyway end-blocker, isNewSnapshotWorthy ----
-	na := run.N / 2
+	na := run.N
 	for i := 0; i < na; i++ {
 		nv := 3 + run.Rng.Intn(3)
 		powers := make([]int64, nv)
@@ -697,7 +700,7 @@ func TestCorr(t *testing.T) {
 		}
 		run.Count("source", "attest-history")
 	}
-	ns := run.N / 6
+	ns := run.N / 3
 	for i := 0; i < ns; i++ {
 		skyHistory(t, run, genSkyHistory(run))
 		run.Count("source", "skyway-history")
